@@ -9,6 +9,7 @@ import (
 	"sort"
 	"strings"
 	"sync"
+	"sync/atomic"
 	"testing"
 	"time"
 
@@ -127,6 +128,9 @@ func (s c08Step) String() string {
 	if s.kind == "inject-forged-twin" {
 		return fmt.Sprintf("forged-entry-claiming(s%d#%d)", s.sender, s.upto)
 	}
+	if s.kind == "storage-hiccup" {
+		return fmt.Sprintf("next-%s-of-the-key-store-fails-once", c08Hiccups[s.upto])
+	}
 	return fmt.Sprintf("msgs(s%d..%d)", s.sender, s.upto)
 }
 
@@ -150,6 +154,9 @@ func c08Hit(prefix string) int64 {
 	}
 	return n
 }
+
+// c08Hiccups: single transient failures of the receiver's key datastore while it opens a message (index = step.upto).
+var c08Hiccups = []string{"write-of-a-message-key-by-CID", "read", "2nd-read", "3rd-read", "delete"}
 
 // c08ConcurrentActivation makes c08Run activate the receiver's group context concurrently with the deliveries.
 var c08ConcurrentActivation bool
@@ -230,6 +237,28 @@ func c08Run(ctx context.Context, w *vWorld, account *vReplica, mat *c08Material,
 		} else if st.kind == "meta" {
 			if err := vDeliver(ctx, gc.MetadataStore(), snd.meta[len(snd.meta)-1:]); err != nil {
 				return nil, err
+			}
+		} else if st.kind == "storage-hiccup" {
+			// the receiver's key datastore fails ONE access from now on ("too many open files" and the like): the message
+			// being opened at that moment has arrived and its key is held; it must still come out, at the latest when the
+			// sender's next message is processed
+			var seen atomic.Int64
+			var fired atomic.Bool
+			which := st.upto
+			r.ssDS.FailOn = func(op, key string) error {
+				hit := false
+				switch which {
+				case 0:
+					hit = op == "put" && strings.HasPrefix(key, "/messageKeyForCIDs/")
+				case 1, 2, 3:
+					hit = op == "get" && seen.Add(1) == int64(which)
+				case 4:
+					hit = op == "delete"
+				}
+				if hit && fired.CompareAndSwap(false, true) {
+					return fmt.Errorf("verif: injected datastore error (too many open files)")
+				}
+				return nil
 			}
 		} else if st.kind == "inject-forged-twin" {
 			// an entry any member can write: headers naming the sender's device and the counter of its message #upto, boxed
@@ -520,6 +549,16 @@ func TestVerifC08(t *testing.T) {
 		{"burst-130-unopenable-then-3", 1, 130, 3, func(m *c08Material) []c08Step {
 			return []c08Step{{"msgs", 0, all(0, m)}, {"settle", 0, 0}, {"meta", 0, 0}}
 		}, false, 0, false},
+		// the key is known; while the receiver opens message 1 its key datastore fails one access; messages 2 and 3 follow
+		{"storage-hiccup-while-opening/write", 1, 0, 3, func(m *c08Material) []c08Step {
+			return []c08Step{{"meta", 0, 0}, {"settle", 0, 0}, {"storage-hiccup", 0, 0}, {"msgs", 0, 1}, {"settle", 0, 0}, {"msgs", 0, 2}, {"settle", 0, 0}, {"msgs", 0, 3}}
+		}, false, 0, false},
+		{"storage-hiccup-while-opening/read", 1, 0, 3, func(m *c08Material) []c08Step {
+			return []c08Step{{"meta", 0, 0}, {"settle", 0, 0}, {"storage-hiccup", 0, 1}, {"msgs", 0, 1}, {"settle", 0, 0}, {"msgs", 0, 2}, {"settle", 0, 0}, {"msgs", 0, 3}}
+		}, false, 0, false},
+		{"storage-hiccup-while-opening/2nd-read", 1, 0, 3, func(m *c08Material) []c08Step {
+			return []c08Step{{"meta", 0, 0}, {"settle", 0, 0}, {"storage-hiccup", 0, 2}, {"msgs", 0, 1}, {"settle", 0, 0}, {"msgs", 0, 2}, {"settle", 0, 0}, {"msgs", 0, 3}}
+		}, false, 0, false},
 		// another member has written an entry that claims the sender's device and the counter of its 2nd message (headers
 		// are boxed under the group secret only); it never opens and is parked first. The genuine messages, parked after
 		// it, must all come out when the key arrives - before and after the announcement
@@ -593,7 +632,7 @@ func TestVerifC08(t *testing.T) {
 		}
 		verifsched.MergeProfile(prof)
 		rep.Distinct(sc.name + "/off")
-		burst := strings.HasPrefix(sc.name, "burst-") || strings.HasPrefix(sc.name, "far-ahead-") // long runs (130 messages, or a settle after every arrival): a handful of runs only
+		burst := strings.HasPrefix(sc.name, "burst-") || strings.HasPrefix(sc.name, "far-ahead-") || strings.HasPrefix(sc.name, "storage-hiccup-") // long runs (130 messages, or a settle after every arrival): a handful of runs only
 		for s := 0; s < 4 && !(burst && s >= 1); s++ {
 			s := s
 			runOnce(fmt.Sprintf("profile-jitter(%d)", s), func() { verifsched.SetJitter(uint64(8000+s), 400, 300*time.Microsecond) })
